@@ -3,7 +3,7 @@ from typing import Dict, Tuple, Any, Union, Type, Optional, ForwardRef
 
 from pedantic.constants import TypeVar, TYPE_VAR_METHOD_NAME, ReturnType, TYPE_VAR_SELF
 from pedantic.exceptions import PedanticCallWithArgsException, PedanticTypeCheckException
-from pedantic.type_checking_logic.check_types import assert_value_matches_type
+from pedantic.type_checking_logic.check_types import assert_value_matches_type, _has_required_type_arguments
 from pedantic.models.decorated_function import DecoratedFunction
 from pedantic.models.generator_wrapper import GeneratorWrapper
 
@@ -133,7 +133,10 @@ class FunctionCall:
         if not params:
             return
 
-        expected = list(params.values())[0].annotation  # it's not possible to have more than 1
+        param = list(params.values())[0]  # it's not possible to have more than 1
+        self._assert_param_has_type_annotation(param=param)
+        self._assert_annotation_is_complete(annotation=param.annotation)
+        expected = param.annotation
 
         for arg in self.args:
             assert_value_matches_type(
@@ -150,6 +153,7 @@ class FunctionCall:
 
         param = list(params.values())[0]  # it's not possible to have more than 1
         self._assert_param_has_type_annotation(param=param)
+        self._assert_annotation_is_complete(annotation=param.annotation)
 
         for kwarg in self.not_yet_check_kwargs:
             actual_value = self.kwargs[kwarg]
@@ -188,6 +192,10 @@ class FunctionCall:
     def _assert_param_has_type_annotation(self, param: inspect.Parameter):
         if param.annotation == inspect.Parameter.empty:
             raise PedanticTypeCheckException(f'{self.func.err}Parameter "{param.name}" should have a type hint.')
+
+    def _assert_annotation_is_complete(self, annotation: Any) -> None:
+        if annotation in [list, set, dict, frozenset, tuple, type] or not _has_required_type_arguments(annotation):
+            raise PedanticTypeCheckException(f'{self.func.err}The type annotation "{annotation}" misses type arguments.')
 
     def _get_return_value(self) -> Any:
         if self.func.is_static_method or self.func.is_class_method:
